@@ -399,4 +399,256 @@ theorem reaches_outcome {env σ p args σq q qargs r σ'} (h : Reaches env σ p 
     (hq : Applies σq q qargs env r σ') : Applies σ p args env r σ' :=
   h.applies hq
 
+/-! ## 3. an error raised by a sub-evaluation IS the outcome of the enclosing evaluation
+
+In every rule below the error `er` (kind AND location) and the store of the failing sub-evaluation
+are returned unchanged by the enclosing evaluation. -/
+
+/-- OPERATOR position of a call: the operands are not evaluated -/
+theorem error_propagates_operator {σ ρ f args l er σ₁} (hf : Evals σ ρ f (.error er) σ₁) :
+    Evals σ ρ (.call f args l) (.error er) σ₁ :=
+  Evals.call_op_err hf
+
+/-- OPERAND position of a call (the operator being a procedure): the operands before the failing one
+have been evaluated, NO LATER OPERAND IS EVALUATED (`post` is arbitrary), nothing is applied -/
+theorem error_propagates_operand {σ ρ f pre a post l fv σ₁ vs σ₂ er σ₃} (hf : Evals σ ρ f (.ok fv) σ₁)
+    (hp : (procArity fv).isSome) (hpre : EvalsArgs σ₁ ρ pre (.ok vs) σ₂) (ha : Evals σ₂ ρ a (.error er) σ₃) :
+    EvalsArgs σ₁ ρ (pre ++ a :: post) (.error er) σ₃ ∧
+    Evals σ ρ (.call f (pre ++ a :: post) l) (.error er) σ₃ :=
+  ⟨EvalsArgs.append_err hpre ha, Evals.call_arg_err hf (EvalsArgs.append_err hpre ha) hp⟩
+
+/-- the TEST of an `if`, in ordinary and in tail position: no arm is evaluated -/
+theorem error_propagates_if_test {σ ρ t c a l er σ₁} (ht : Evals σ ρ t (.error er) σ₁) :
+    Evals σ ρ (.cond t c a l) (.error er) σ₁ ∧ EvalsTail σ ρ (.cond t c a l) (.error er) σ₁ :=
+  ⟨Evals.cond_err ht, EvalsTail.cond_err ht⟩
+
+/-- the chosen ARM of an `if`, in ordinary and in tail position -/
+theorem error_propagates_if_arm {σ ρ t c alt l tv σ₁ er σ₂} (ht : Evals σ ρ t (.ok tv) σ₁) :
+    (tv.truthy = true → Evals σ₁ ρ c (.error er) σ₂ → Evals σ ρ (.cond t c alt l) (.error er) σ₂) ∧
+    (tv.truthy = true → EvalsTail σ₁ ρ c (.error er) σ₂ → EvalsTail σ ρ (.cond t c alt l) (.error er) σ₂) ∧
+    (∀ a, alt = some a → tv.truthy = false → Evals σ₁ ρ a (.error er) σ₂ →
+      Evals σ ρ (.cond t c alt l) (.error er) σ₂) ∧
+    (∀ a, alt = some a → tv.truthy = false → EvalsTail σ₁ ρ a (.error er) σ₂ →
+      EvalsTail σ ρ (.cond t c alt l) (.error er) σ₂) :=
+  ⟨fun h hc => Evals.cond_true ht h hc, fun h hc => EvalsTail.cond_true ht h hc,
+   fun _ ha h hc => ha ▸ Evals.cond_false ht h hc, fun _ ha h hc => ha ▸ EvalsTail.cond_false ht h hc⟩
+
+/-- the VALUE expression of `set!`: nothing is assigned -/
+theorem error_propagates_set {σ ρ x e l er σ₁} (he : Evals σ ρ e (.error er) σ₁) :
+    Evals σ ρ (.assign x e l) (.error er) σ₁ :=
+  Evals.assign_err he
+
+/-- an INTERNAL DEFINITION of a procedure body: the definitions before it are bound, the ones after
+it and the body are not looked at; the error is the outcome of the application, in the trampoline
+and as an activation -/
+theorem error_propagates_definition {σ lam cenv args env restArgs σ₁ pre x e l post σ₂ er σ₃}
+    (ha : arityOk lam.formals.fixed.length lam.formals.rest.isSome args.length = true)
+    (hb : bindFixed (σ.newFrame (some cenv)).2 (σ.newFrame (some cenv)).1 lam.formals.fixed args = (.ok restArgs, σ₁))
+    (hdefs : lam.defs = pre ++ .mk x e l :: post)
+    (hpre : EvalsDefSeq (σ.newFrame (some cenv)).1
+      (Ref.bindRest σ₁ (σ.newFrame (some cenv)).1 lam.formals.rest restArgs) pre σ₂)
+    (he : Evals σ₂ (σ.newFrame (some cenv)).1 e (.error er) σ₃) :
+    AppliesScheme σ lam cenv args (.error er) σ₃ ∧ Applies σ (.closure lam cenv) args env (.error er) σ₃ := by
+  have h : AppliesScheme σ lam cenv args (.error er) σ₃ :=
+    AppliesScheme.defs_err hb (hdefs ▸ EvalsDefs.seq_err hpre he)
+  exact ⟨h, Applies.closure_err ha h⟩
+
+/-- a NON-LAST BODY expression: the expressions before it have been evaluated, the rest of the body
+is not looked at -/
+theorem error_propagates_body {ρ σ pre σ₁ e er σ₂ e' post} (hs : EvalsSeq ρ σ pre σ₁)
+    (he : Evals σ₁ ρ e (.error er) σ₂) : EvalsBody σ ρ (pre ++ e :: e' :: post) (.error er) σ₂ :=
+  EvalsBody.seq_err hs he
+
+/-- the TAIL expression (the last of the body) when it is not a call: evaluated in place, its error
+is the body's -/
+theorem error_propagates_tail_expr {ρ σ pre σ₁ e er σ₂} (hs : EvalsSeq ρ σ pre σ₁)
+    (hcall : ∀ f as l, e ≠ .call f as l) (hcond : ∀ t c a l, e ≠ .cond t c a l)
+    (he : Evals σ₁ ρ e (.error er) σ₂) : EvalsBody σ ρ (pre ++ [e]) (.error er) σ₂ :=
+  EvalsBody.seq_last hs (EvalsTail.other_err hcall hcond he)
+
+/-- whatever makes the BODY fail makes the application fail, in the trampoline and as an activation,
+and through the activation the call expression -/
+theorem error_propagates_application {σ lam cenv args env er σ₁}
+    (ha : arityOk lam.formals.fixed.length lam.formals.rest.isSome args.length = true)
+    (hs : AppliesScheme σ lam cenv args (.error er) σ₁) :
+    Applies σ (.closure lam cenv) args env (.error er) σ₁ :=
+  Applies.closure_err ha hs
+
+/-- TAIL CALL: the pending call's operator, an operand, or the callee itself (`hcallee`: the loop
+continued with the callee) fails: that error is the outcome of the trampoline run -/
+theorem error_propagates_tail_call {σ lam cenv args env f targs tenv σ₁}
+    (ha : arityOk lam.formals.fixed.length lam.formals.rest.isSome args.length = true)
+    (hs : AppliesScheme σ lam cenv args (.ok (.tailCall f targs tenv)) σ₁) :
+    (∀ er σ₂, Evals σ₁ tenv f (.error er) σ₂ → Applies σ (.closure lam cenv) args env (.error er) σ₂) ∧
+    (∀ fv σ₂ er σ₃, Evals σ₁ tenv f (.ok fv) σ₂ → EvalsArgs σ₂ tenv targs (.error er) σ₃ →
+      Applies σ (.closure lam cenv) args env (.error er) σ₃) ∧
+    (∀ fv σ₂ vs σ₃ er σ', Evals σ₁ tenv f (.ok fv) σ₂ → EvalsArgs σ₂ tenv targs (.ok vs) σ₃ →
+      (procArity fv).isSome → Applies σ₃ fv vs env (.error er) σ' →
+      Applies σ (.closure lam cenv) args env (.error er) σ') :=
+  ⟨fun _ _ hf => Applies.closure_tail_op_err ha hs hf,
+   fun _ _ _ _ hf hargs => Applies.closure_tail_arg_err ha hs hf hargs,
+   fun _ _ _ _ _ _ hf hargs hp hl => Applies.closure_tail ha hs hf hargs hp hl⟩
+
+/-- APPLY: the procedure handed to `apply` fails: that error is the outcome -/
+theorem error_propagates_apply {σ args env f args' er σ'} (ha : 1 ≤ args.length)
+    (hs : spreadApply args = .ok (f, args')) (h : Applies σ f args' env (.error er) σ') :
+    Applies σ (.builtin .apply) args env (.error er) σ' :=
+  Applies.apply ha hs h
+
+/-- DIRECT CALL: the applied procedure fails: that error is the outcome of the activation and of
+the call expression (the store: the loop's, with the activation closed) -/
+theorem error_propagates_direct_call {σ ρ f args l fv σ₁ vs σ₂ er σ₃} (hf : Evals σ ρ f (.ok fv) σ₁)
+    (hargs : EvalsArgs σ₁ ρ args (.ok vs) σ₂) (hp : (procArity fv).isSome)
+    (hl : Applies (enter σ₂) fv vs ρ (.error er) σ₃) :
+    AppliesProc σ₂ fv vs ρ (.error er) (leave σ₃) ∧ Evals σ ρ (.call f args l) (.error er) (leave σ₃) :=
+  ⟨AppliesProc.of_loop hl, Evals.call hf hargs hp (AppliesProc.of_loop hl)⟩
+
+/-- EVERY CALLING CONTEXT AT ONCE. A call expression whose procedure's trampoline run reaches —
+through any number of pending tail calls (user procedures, library procedures: they are closures
+like any other) and `apply`s — an iteration that fails with `er` (for instance one of the faults of
+section 1): the call expression fails with exactly `er`. -/
+theorem error_propagates {σ ρ f args l fv σ₁ vs σ₂ σq q qargs er σ₃} (hf : Evals σ ρ f (.ok fv) σ₁)
+    (hargs : EvalsArgs σ₁ ρ args (.ok vs) σ₂) (hp : (procArity fv).isSome)
+    (hreach : Reaches ρ (enter σ₂) fv vs σq q qargs) (hq : Applies σq q qargs ρ (.error er) σ₃) :
+    Evals σ ρ (.call f args l) (.error er) (leave σ₃) :=
+  (error_propagates_direct_call hf hargs hp (hreach.applies hq)).2
+
+/-- example: `((lambda () (apply car 5 '())))` — a native type fault reached through a tail call and
+`apply` is the outcome of the outermost call -/
+example : ∃ σ', Evals { frames := #[{ parent := none, defs := [("apply", .builtin .apply), ("car", .builtin .car)] }] } 0
+    (.call (.lambda (.mk ⟨[], none⟩ []
+      [.call (.sym "apply" none) [.sym "car" none, .prim (.int 5) none, .quote (.nil none) none] none]) none) [] none)
+    (.error (.type, none)) σ' := by
+  apply Exists.intro
+  apply error_propagates (q := .builtin .car) (qargs := [.num (.int 5)]) Evals.lambda EvalsArgs.nil rfl
+  case hreach =>
+    apply Reaches.tail rfl (AppliesScheme.intro_ok rfl EvalsDefs.nil (EvalsBody.last EvalsTail.call))
+      (Evals.sym (v := .builtin .apply) rfl)
+    case hargs =>
+      exact EvalsArgs.cons (Evals.sym (v := .builtin .car) rfl)
+        (EvalsArgs.cons (Evals.prim rfl) (EvalsArgs.cons (Evals.quote rfl (by simp)) EvalsArgs.nil))
+    case hp => rfl
+    case h => exact .apply (by simp) rfl .refl
+  case hq => exact (fault_type_car (x := .num (.int 5)) (by intro a d h; cases h)).loop 0
+
+/-! ## 4. the effects completed before the error are kept, and later forms are evaluated normally -/
+
+/-- OPERANDS: when operand `a` fails the returned store `σ₃` is the store reached by evaluating the
+operands before it (`σ₂`, by `hpre`) and then the failing operand's own partial effects (`ha`) —
+nothing of `post` has happened, nothing is rolled back -/
+theorem effects_before_error_kept_operands {σ ρ pre a post vs σ₂ er σ₃} (hpre : EvalsArgs σ ρ pre (.ok vs) σ₂)
+    (ha : Evals σ₂ ρ a (.error er) σ₃) (r σ') (h : EvalsArgs σ ρ (pre ++ a :: post) r σ') :
+    r = .error er ∧ σ' = σ₃ :=
+  EvalsArgs.unique h (EvalsArgs.append_err hpre ha)
+
+/-- BODIES: when a body expression fails the returned store is the one reached by the expressions
+before it and the failing expression's own partial effects -/
+theorem effects_before_error_kept_body {ρ σ pre σ₁ e er σ₂ e' post} (hs : EvalsSeq ρ σ pre σ₁)
+    (he : Evals σ₁ ρ e (.error er) σ₂) (r σ') (h : EvalsBody σ ρ (pre ++ e :: e' :: post) r σ') :
+    r = .error er ∧ σ' = σ₂ :=
+  Stable.unique h (EvalsBody.seq_err hs he)
+
+/-- DEFINITIONS: when an internal definition fails the definitions before it stay bound -/
+theorem effects_before_error_kept_definitions {ρ σ ds σ₁ x e l er σ₂ post} (hs : EvalsDefSeq ρ σ ds σ₁)
+    (he : Evals σ₁ ρ e (.error er) σ₂) (r σ') (h : EvalsDefs σ ρ (ds ++ .mk x e l :: post) r σ') :
+    r = .error er ∧ σ' = σ₂ :=
+  Stable.unique h (EvalsDefs.seq_err hs he)
+
+/-- `eval_expression_or_definition` changes NOTHING BUT THE STORE of the interpreter state, whatever
+the statement and the outcome -/
+theorem state_after_form (fuel : Nat) (st : Interp.State) (s : Statement) (ρ : Nat) :
+    ∃ σ', (Interp.evalExprOrDef fuel st s ρ).2 = { st with store := σ' } :=
+  Interp.evalExprOrDef_state fuel st s ρ
+
+/-- TOP-LEVEL EXPRESSION: `eval_ast` returns the evaluator's outcome (a missing location filled in)
+and a state that is the given one with the evaluator's store (and `import_end` set) — for an error
+exactly as for a value -/
+theorem state_after_expression (fuel : Nat) (st : Interp.State) (e : Expr) :
+    Interp.evalAst fuel st (.expr e) =
+      ((match (evalExpr fuel st.store st.env e).1 with
+        | .ok v => .ok (some v)
+        | .error (k, loc) => .error (k, loc.orElse (fun _ => e.loc))),
+       { st with store := (evalExpr fuel st.store st.env e).2, importEnd := true }) :=
+  Interp.evalAst_expr fuel st e
+
+/-- TOP-LEVEL DEFINITION: the name is bound iff the expression evaluated; on an error the state is
+the given one with the store the failing evaluation left -/
+theorem state_after_definition (fuel : Nat) (st : Interp.State) (x : String) (e : Expr) (l : Loc) :
+    Interp.evalAst fuel st (.definition (.mk x e l)) =
+      (match evalExpr fuel st.store st.env e with
+       | (.ok v, σ) => (.ok none, { st with store := σ.define st.env x v, importEnd := true })
+       | (.error (k, loc), σ) =>
+         (.error (k, loc.orElse (fun _ => l)), { st with store := σ, importEnd := true })) :=
+  Interp.evalAst_definition fuel st x e l
+
+/-- LATER FORMS ARE EVALUATED NORMALLY: after an expression form failed with `er` leaving store `σ₁`,
+any later form `s₂` submitted to the same interpreter is evaluated by `eval_ast` from the state that
+differs from the original one only in that store — exactly as if the effects had been produced by a
+successful form. -/
+theorem later_forms_normal (fuel : Nat) (st : Interp.State) (e₁ : Expr) (s₂ : Statement) {k loc σ₁}
+    (h₁ : evalExpr fuel st.store st.env e₁ = (.error (k, loc), σ₁)) :
+    (Interp.evalAst fuel st (.expr e₁)).1 = .error (k, loc.orElse (fun _ => e₁.loc)) ∧
+    Interp.evalAst fuel (Interp.evalAst fuel st (.expr e₁)).2 s₂ =
+      Interp.evalAst fuel { st with store := σ₁, importEnd := true } s₂ := by
+  rw [Interp.evalAst_expr, h₁]; exact ⟨rfl, rfl⟩
+
+/-- within one text: `Interpreter::eval` threads the state through the forms — the rest of the text
+is evaluated from the state `eval_ast` returned, and an error returns that state to the caller -/
+theorem text_threads_state (fuel n : Nat) (s s' : Read.PState) (st : Interp.State) (last : Option Value)
+    (d : Datum) (stmt : Statement) (syn : Xform.SynEnv) (hd : Read.nextDatum s = .ok (some d, s'))
+    (hx : Xform.toStatement (Xform.xformFuel d) d st.syn = (.ok stmt, syn)) :
+    Interp.evalText.go fuel (n+1) s st last =
+      match Interp.evalAst fuel { st with syn := syn } stmt with
+      | (.error e, st') => (.error e, st')
+      | (.ok v, st') => Interp.evalText.go fuel n s' st' v :=
+  Interp.evalText_go_step fuel n s s' st last d stmt syn hd hx
+
+/-! ## 5. no value is invented -/
+
+/-- a call expression has a VALUE only if the operator, every operand and the application had one -/
+theorem no_invented_value {σ ρ f args l v σ'} (h : Evals σ ρ (.call f args l) (.ok v) σ') :
+    ∃ fv σ₁ vs σ₂, Evals σ ρ f (.ok fv) σ₁ ∧ EvalsArgs σ₁ ρ args (.ok vs) σ₂ ∧ (procArity fv).isSome ∧
+      AppliesProc σ₂ fv vs ρ (.ok v) σ' := by
+  rcases h.call_inv with ⟨er, _, h⟩ | ⟨fv, σ₁, ra, σ₂, hf, hargs, h⟩
+  · cases h
+  · rcases h with ⟨_, h, _⟩ | ⟨_, er, _, h, _⟩ | ⟨hp, vs, rfl, hap⟩
+    · cases h
+    · cases h
+    · exact ⟨fv, σ₁, vs, σ₂, hf, hargs, hp, hap⟩
+
+/-- the trampoline on a user procedure has a VALUE only if the body had one, or ended in a pending
+call whose operator and operands had values, whose operator is a procedure, and the loop continued
+with it had that value -/
+theorem no_invented_value_loop {σ lam cenv args env v σ'} (h : Applies σ (.closure lam cenv) args env (.ok v) σ') :
+    arityOk lam.formals.fixed.length lam.formals.rest.isSome args.length = true ∧
+    (AppliesScheme σ lam cenv args (.ok (.value v)) σ' ∨
+     ∃ f targs tenv σ₁ fv σ₂ vs σ₃, AppliesScheme σ lam cenv args (.ok (.tailCall f targs tenv)) σ₁ ∧
+       Evals σ₁ tenv f (.ok fv) σ₂ ∧ EvalsArgs σ₂ tenv targs (.ok vs) σ₃ ∧ (procArity fv).isSome ∧
+       Applies σ₃ fv vs env (.ok v) σ') := by
+  rcases h.closure_inv with ⟨_, h, _⟩ | ⟨ha, h⟩
+  · cases h
+  · refine ⟨ha, ?_⟩
+    rcases h with ⟨_, _, h⟩ | ⟨v', hs, h⟩ | ⟨f, targs, tenv, σ₁, hs, h⟩
+    · cases h
+    · cases h; exact .inl hs
+    · rcases h with ⟨_, _, h⟩ | ⟨fv, σ₂, hf, h⟩
+      · cases h
+      · rcases h with ⟨_, _, h⟩ | ⟨vs, σ₃, hargs, h⟩
+        · cases h
+        · rcases h with ⟨_, h, _⟩ | ⟨hp, hl⟩
+          · cases h
+          · exact .inr ⟨f, targs, tenv, σ₁, fv, σ₂, vs, σ₃, hs, hf, hargs, hp, hl⟩
+
+/-- conversely: if the operator, an operand, or the application of a call fails, the call's outcome
+is THAT error — it is never a value and never another error -/
+theorem no_value_after_error {σ ρ f args l r σ'} (h : Evals σ ρ (.call f args l) r σ') :
+    (∀ er σ₁, Evals σ ρ f (.error er) σ₁ → r = .error er ∧ σ' = σ₁) ∧
+    (∀ fv σ₁ er σ₂, Evals σ ρ f (.ok fv) σ₁ → (procArity fv).isSome → EvalsArgs σ₁ ρ args (.error er) σ₂ →
+      r = .error er ∧ σ' = σ₂) ∧
+    (∀ fv σ₁ vs σ₂ er σ₃, Evals σ ρ f (.ok fv) σ₁ → EvalsArgs σ₁ ρ args (.ok vs) σ₂ → (procArity fv).isSome →
+      AppliesProc σ₂ fv vs ρ (.error er) σ₃ → r = .error er ∧ σ' = σ₃) :=
+  ⟨fun _ _ hf => Evals.unique h (Evals.call_op_err hf),
+   fun _ _ _ _ hf hp ha => Evals.unique h (Evals.call_arg_err hf ha hp),
+   fun _ _ _ _ _ _ hf ha hp hap => Evals.unique h (Evals.call hf ha hp hap)⟩
+
 end Ruschm.C08
